@@ -99,6 +99,9 @@ impl ResourceRequestVariants {
                 "Resource request has no variant".to_string(),
             ));
         }
+        for rq in &self.variants {
+            rq.validate()?;
+        }
         if self.variants.len() > 1 && self.variants.iter().any(|rq| rq.n_nodes > 0) {
             return Err(DsError::GenericError(
                 "Multi-node resource request cannot be combined with other resource variants"
